@@ -878,8 +878,43 @@ class AtomicOp:
         return '%s @%s [%s] %s' % (self.op, self.recv, ','.join(self.ords), self.site.where)
 
 
+def _arg_permutation(pin, cur_names, cur_tys):
+    """perm[k] = current position of the parameter that was at position k when the rules were written, or None (keep the call as it is)."""
+    pn, pt = pin['names'], pin['tys']
+    n = len(pn)
+    if n != len(cur_names) or cur_names == pn:
+        return None
+    perm = [None] * n
+    used = set()
+    for k in range(n):
+        if pn[k] is not None and cur_names.count(pn[k]) == 1 and pn.count(pn[k]) == 1:
+            perm[k] = cur_names.index(pn[k])
+            used.add(perm[k])
+    rest_p = [k for k in range(n) if perm[k] is None]
+    rest_c = [c for c in range(n) if c not in used]
+    if len(rest_p) == 1:
+        perm[rest_p[0]] = rest_c[0]
+    elif rest_p:
+        # renamed parameters: match the remaining ones by their declared type when that is unambiguous
+        for k in rest_p:
+            hits = [c for c in rest_c if cur_tys[c] == pt[k]]
+            if len(hits) == 1 and [pt[q] for q in rest_p].count(pt[k]) == 1:
+                perm[k] = hits[0]
+        left_p = [k for k in rest_p if perm[k] is None]
+        left_c = [c for c in rest_c if c not in perm]
+        if len(left_p) == 1 and len(left_c) == 1:
+            perm[left_p[0]] = left_c[0]
+        elif left_p:
+            # ambiguous: keep the relative order of what is left
+            for k, c in zip(left_p, left_c):
+                perm[k] = c
+    if sorted(perm) != list(range(n)) or perm == list(range(n)):
+        return None
+    return perm
+
+
 class Facts:
-    def __init__(self, facts_dir):
+    def __init__(self, facts_dir, canonical_args=True):
         self.dir = facts_dir
         self.fns = {}
         self.fn_list = []
@@ -929,6 +964,43 @@ class Facts:
                 self.consts[c['id']] = c
             for t in d['traits']:
                 self.traits[t['id']] = t
+        self.reordered_calls = 0
+        self.arg_permutations = None
+        if canonical_args:
+            self._canonicalise_call_arguments()
+
+    def _canonicalise_call_arguments(self):
+        """Present the arguments of every call to a product function in the parameter order frozen in rules/signatures.json (the order the
+        rules were written against).  A reordering of a private function's parameters (with all callers adapted) is behaviour preserving;
+        rules that pick `args[k]` keep seeing the argument of the same parameter.  Identified by name, then by unique declared type."""
+        sp = os.path.join(os.path.dirname(os.path.abspath(__file__)), 'signatures.json')
+        if not os.path.exists(sp):
+            return
+        self.arg_permutations = {}
+        with open(sp) as fh:
+            pinned = json.load(fh)
+        perms = {}
+        for fid, pin in pinned.items():
+            l = self.fns.get(fid)
+            if not l:
+                continue
+            g = l[0]
+            if g.nargs != len(pin['names']):
+                continue
+            perm = _arg_permutation(pin, [g.local_name(i) for i in range(1, g.nargs + 1)], [str(g.locals[i]) for i in range(1, g.nargs + 1)])
+            if perm is not None:
+                perms[fid] = perm
+        self.arg_permutations = perms
+        if not perms:
+            return
+        for f in self.fn_list:
+            for blk in f.blocks:
+                t = blk['t']
+                if t and t[0] in ('call', 'tailcall') and isinstance(t[1], dict):
+                    perm = perms.get(t[1].get('d'))
+                    if perm is not None and len(t[2]) == len(perm):
+                        t[2] = [t[2][c] for c in perm]
+                        self.reordered_calls += 1
 
     # ---- lookup
     def fn(self, fid):
